@@ -562,8 +562,9 @@ def run(ctx: Context, rep) -> None:
            loc=ctx.fn(C_.SHARD_PATHS).loc(), where="iteration modules",
            construct=f"{n_reads} read(s) of recorded totals",
            message="readers are independent of the recorded totals")
-
-
+    # nothing read from the dataset's files / the environment is memoised
+    from sa.rules import shared as _shm
+    _shm.check_no_memo(ctx, rep, "C06.memo")
 
 _U = "src/sedpack/io/utils.py"
 _SM = "src/sedpack/io/shard_file_metadata.py"
